@@ -27,7 +27,7 @@ ASSUMPTIONS = [a for a in C04.ASSUMPTIONS if "quiescent" not in a] + [
     "a cancelled or never-started fetch takes nothing from the scripted broker (brokers that consume a message and are then cancelled before yielding are outside)",
 ]
 TRUSTED = C04.TRUSTED
-REQUIRED_COVERS = ["late_registration_known", "late_registration_unknown", "mid_chain_event", "malformed", "malformed_raw", "unknown", "valid", "stop_in_flight", "quota", "stream_end", "unlimited"]
+REQUIRED_COVERS = ["messages_ready_at_start", "late_registration_known", "late_registration_unknown", "mid_chain_event", "malformed", "malformed_raw", "unknown", "valid", "stop_in_flight", "quota", "stream_end", "unlimited"]
 budget = C04.budget
 coverage_extra = C04.coverage_extra
 
@@ -42,8 +42,8 @@ def cases(tier: str) -> List[Any]:
     M = 3 if tier == "quick" else 4
     K = 6 if tier == "quick" else 7
     depth = 2 if tier == "quick" else 4
-    for cfg in ("A", "AN", "noneA", "end", "anyA"):
-        for k0 in ("valid", "malformed", "unknown", "malformed_raw") if cfg != "anyA" else ("valid",):
+    for cfg in ("A", "AN", "noneA", "end", "anyA", "ready"):
+        for k0 in ("valid", "malformed", "unknown", "malformed_raw") if cfg not in ("anyA", "ready") else ("valid",):
             for prefix in itertools.product(range(3), repeat=depth):
                 out.append({"M": M, "K": K - 1 if cfg == "anyA" else K, "cfg": cfg, "k0": k0, "prefix": list(prefix)})
     # a task that becomes known while the worker runs: messages before the registration are skipped, later ones are executed
@@ -65,7 +65,7 @@ def harness(c: sym.Ctx, case: Dict[str, Any]) -> None:
         kinds = [case["k0"]] + [c.choose(("valid", "unknown", "malformed_raw") if case["M"] <= 3 and not case.get("preempt") else ("valid", "malformed_raw", "empty"), f"kind{k}") for k in range(1, M)]
     cfg = case["cfg"]
     spec = {"M": M, "kinds": kinds, "outcomes": ["return"] * M, "A": "none" if cfg == "noneA" else ("any" if cfg == "anyA" else "sym"), "P": "sym",
-            "N": "sym" if cfg == "AN" else ("sym0" if cfg == "anyA" else "none"), "wtt": None, "K": case["K"], "prefix": case["prefix"], "stream_end": cfg == "end", "preempt": case.get("preempt", 0)}
+            "N": "sym" if cfg == "AN" else ("sym0" if cfg in ("anyA", "ready") else "none"), "ready": cfg == "ready", "wtt": None, "K": case["K"], "prefix": case["prefix"], "stream_end": cfg == "end", "preempt": case.get("preempt", 0)}
     r = _listen.run(c, spec)
     check_exactly_once(c, r, kinds)
     for k in kinds:
@@ -76,6 +76,8 @@ def harness(c: sym.Ctx, case: Dict[str, Any]) -> None:
         c.cover("unlimited")
     if cfg == "AN":
         c.cover("quota")
+    if cfg == "ready":
+        c.cover("messages_ready_at_start")
     if any(e == ("env", "stream") or e[:2] == ("forced", "stream") for e in r.lab.ev) or cfg == "end":
         c.cover("stream_end")
 
